@@ -65,6 +65,8 @@ func runC18(c *Ctx) {
 	c.rule("R18.2", "no dial and no socket swap after the loop's context is done; that context is cancelled on loop exit")
 	c.rule("R18.3", "the lock-order graph over the library's mutexes is acyclic")
 	c.rule("R18.4", "HTTP/custom closers only close a channel made by their constructor")
+	c.rule("R18.12", "every socket write is bounded by a write deadline set before it: the stop arm runs on the connection loop and takes the write lock, so a write parked on a silent peer keeps the closer from returning")
+	c.boundedSocketWrites("R18.12")
 	c.rule("R18.11", "the redial dials with no library mutex held (a stalled dial under the write lock wedges the connection loop, so the closer never returns)")
 	c.dialWithoutLocks("R18.11")
 	c.rule("R18.5", "no mutex stays locked on a return path")
